@@ -18,7 +18,7 @@ import time
 
 VERIF = os.path.dirname(os.path.dirname(os.path.abspath(__file__)))
 REPO = os.environ.get("VERIF_REPO", "/repo")
-CACHE = os.path.join(VERIF, ".cache")
+CACHE = os.environ.get("VERIF_CACHE") or os.path.join(VERIF, ".cache")
 MIRFACTS_DIR = os.path.join(VERIF, "tools", "mirfacts")
 MIRFACTS = os.path.join(MIRFACTS_DIR, "target", "release", "mirfacts")
 SYNFACTS_DIR = os.path.join(VERIF, "tools", "synfacts")
@@ -36,10 +36,16 @@ def log(*a):
 
 
 def treehash():
-    out = subprocess.run(
-        ["git", "-C", REPO, "ls-files", "-co", "--exclude-standard", "-z"],
-        check=True, capture_output=True).stdout
-    files = sorted(f for f in out.decode().split("\0") if f)
+    r = subprocess.run(["git", "-C", REPO, "ls-files", "-co", "--exclude-standard", "-z"], capture_output=True)
+    if r.returncode == 0:
+        files = sorted(f for f in r.stdout.decode().split("\0") if f)
+    else:
+        # not a git work tree (a plain copy): every file outside build output
+        files = []
+        for root, dirs, fns in os.walk(REPO):
+            dirs[:] = sorted(d for d in dirs if d not in ("target", ".git"))
+            files += [os.path.relpath(os.path.join(root, fn), REPO) for fn in fns]
+        files.sort()
     h = hashlib.sha256()
     for f in files:
         p = os.path.join(REPO, f)
